@@ -74,12 +74,17 @@ def judge(ctx, s, origin, res, pred=None):
         if cls == "skipped":
             ctx.traces -= 1
             return got
+        first = ctx.__dict__.setdefault("first_outcome", {})
+        if s not in first:
+            first[s] = (cls, dg)
+        elif first[s] != (cls, dg) and key is None:
+            key = {"kind": "outcome-depends-on-earlier-inputs", "was": first[s][0], "now": cls}
         if cls not in ALLOWED:
             key = {"kind": "outcome-" + cls, "exc": detail[0] if cls in ("foreign", "libother") and detail else ""}
         elif nondet:
-            key = {"kind": "nondeterministic"}
+            key = key or {"kind": "nondeterministic"}
         elif dt > TIME_LIMIT:
-            key = {"kind": "no-termination-within-limit"}
+            key = key or {"kind": "no-termination-within-limit"}
     if key is not None:
         key["origin"] = origin
         ctx.violation(key, {"text": s if len(s) < 2000 else s[:200] + "...(%d chars)" % len(s),
@@ -158,6 +163,11 @@ def families(tier):
         add("dots-%d" % n, ".".join(["ab"] * n) + " eq 1")
     for n in (3, 40, 300):
         add("lambdas-%d" % n, "".join("c%d/any(x%d: " % (i, i) for i in range(n)) + "true" + ")" * n)
+    # namesakes inside and outside the geo namespace, bare spelling first (parsed again at the end of the run)
+    for i, t in enumerate(["distance(a, b) lt 5", "intersects(a, b)", "geo.trim(s) eq 'a'", "geo.contains(s, 'a')", "length(a, b) eq 1",
+                           "geo.distance(a, b) lt 5", "geo.intersects(a, b)", "trim(s) eq 'a'", "contains(s, 'a')", "geo.length(a) eq 1",
+                           "geo.length(a, b) eq 1", "length(a) eq 1"]):
+        add("namesake-%d" % i, t)
     add("unterminated-string-64k", "a eq '" + "x" * big)
     add("unterminated-geography-64k", "a eq geography'" + "x" * big)
     add("bad-char-tail", "a eq 1 " + "#" * big)
@@ -226,6 +236,12 @@ def run(ctx):
         for (s, _, _), got in zip(items, gots):
             if got[0] != "syntax":
                 ctx.nontriv(s)
+        # the same string must give the same outcome after everything else has been parsed in the same process:
+        # every input that involved a function call or was accepted, and every 20th of the rest, is parsed again
+        first = getattr(ctx, "first_outcome", {})
+        again = [t for i, (t, o) in enumerate(sorted(first.items())) if len(t) < 3000 and (o[0] in ("ok", "unknown", "argc") or i % 20 == 0)]
+        ctx.notes["reparsed_at_end"] = len(again)
+        many(ctx, [(t, None, "reparse") for t in again], lambda c: "reparse")
     finally:
         WORKER.stop()
     ctx.exhaustive = False
